@@ -162,10 +162,11 @@ def replay_history(ck, c, tmp, P):
 
 def wsvg_roundtrips(ck, rnd, tmp, P, n):
     keys = [1, 2, 3, 0]
-    fn = os.path.join(tmp, 'w.svg')
     combos = [list(c) for r in (1, 2, 3) for c in itertools.permutations(keys, r)]
     rnd.shuffle(combos)
-    for lst in combos[:n]:
+    names = ['w.svg', 'drawing', '.hidden', 'with space.svg', 'out.xml', 'deep/sub dir/file.svg']
+    for ci, lst in enumerate(combos[:n]):
+        fn = os.path.join(tmp, names[ci % len(names)])          # "for all filenames": also names without an extension / in a directory yet to be created
         for amode in ('none', 'dicts', 'shared', 'styled'):
             paths = [P[k] for k in lst]
             shared = dict(ATTRS[2])
@@ -178,8 +179,16 @@ def wsvg_roundtrips(ck, rnd, tmp, P, n):
             def bad(key, what, exp=None, obs=None):
                 ck.disagree(key='wsvg/' + key, site='svgpathtools/paths2svg.py:wsvg', what='%s (paths %s, attributes=%s)' % (what, lst, amode),
                             case={'paths': lst, 'attributes': amode}, expected=exp, observed=obs, driver='wsvg')
+            kw = {}
+            if amode == 'shared':
+                kw['viewbox'] = (0, 0, 50, 40)          # svg_attributes override conflicting settings (documented): the viewBox read back must be the dict's
             try:
-                sp.wsvg(paths, attributes=attributes, svg_attributes=svg_attributes, filename=fn)
+                if os.path.exists(fn):
+                    os.remove(fn)
+                sp.wsvg(paths, attributes=attributes, svg_attributes=svg_attributes, filename=fn, **kw)
+                if not os.path.exists(fn):
+                    bad('file-not-written-where-asked', 'wsvg(filename=%r) did not create that file' % fn)
+                    continue
             except Exception as e:      # noqa
                 bad('raises-' + type(e).__name__, 'wsvg raised %r' % e)
                 continue
